@@ -249,10 +249,11 @@ theorem sort_terminates_state (sch : Schema) (i : Nat) (a : AssocSpec) (k : Kind
         (fun x hx => partner_srcPhrase h s x hx) (s.count + 1)]
       exact hfuelT _ _ _ (Nat.le_succ _) hf
 
-/-- … hence in every reachable state: for any history in C02's domain (`Dom`: relate is applied to live
-    instances) over a well-formed schema, the state-level sort terminates with the abstract result -/
+/-- … hence in every reachable state: for ANY history of operations (on any arguments; `relate` itself rejects an
+    instance that is not in its pool, C02 `relate_on_deleted_rejected`) over a well-formed schema, the state-level sort
+    terminates with the abstract result -/
 theorem sort_reachable (sch : Schema) (hok : SchemaOk sch) (i : Nat) (a : AssocSpec) (k : Kind)
-    (h : ReflexiveAt sch i a k) (hone : a.srcMany = false ∧ a.tgtMany = false) (ops : List Op) (hd : Dom sch init ops)
+    (h : ReflexiveAt sch i a k) (hone : a.srcMany = false ∧ a.tgtMany = false) (ops : List Op)
     (set : List Inst) (hk : ∀ x ∈ set, (run sch ops).kindOf x = k) (hb : ∀ x ∈ set, x < (run sch ops).count)
     (fuel : Nat) (hf : (run sch ops).count ≤ fuel) :
     sortReflexiveSt sch (run sch ops) set a.rel a.srcPhrase =
@@ -261,7 +262,7 @@ theorem sort_reachable (sch : Schema) (hok : SchemaOk sch) (i : Nat) (a : AssocS
     sortReflexiveSt sch (run sch ops) set a.rel a.tgtPhrase =
       some (sortReflexive (fun x => (((run sch ops).links i).src x).head?)
         (fun x => (((run sch ops).links i).tgt x).head?) set fuel) := by
-  have hall : AllInv sch (run sch ops) := run_allInv_from hok ops init (allInv_init sch) hd
+  have hall : AllInv sch (run sch ops) := run_allInv_any hok ops init (allInv_init sch)
   exact sort_terminates_state sch i a k h hone (run sch ops) hall.inv hall.typed hall.liveOnly set hk hb fuel hf
 
 /-! non-vacuity: two chains 1→2→3 and 7→8 (`back`), set in the order 8 3 7 1 2 -/
@@ -299,7 +300,7 @@ example : sortReflexive acR bkR [2, 3, 1] 3 = [2, 3, 1] :=
     (by decide) (by simp) (by intro x hx; exact hx) (by intro x hx; simp at hx; rcases hx with rfl | rfl | rfl <;> rfl)
 
 /-! non-vacuity of the state-level theorems: a one-to-one reflexive association R1 on class 0 with the phrases
-    "succeeds" / "precedes", three instances linked 0 — 1 — 2 by a history in C02's domain -/
+    "succeeds" / "precedes", three instances linked 0 — 1 — 2 -/
 def aR : AssocSpec :=
   { rel := "R1", srcKind := 0, srcKeys := [], srcMany := false, srcCond := true, srcPhrase := "succeeds",
     tgtKind := 0, tgtKeys := [], tgtMany := false, tgtCond := true, tgtPhrase := "precedes" }
@@ -313,9 +314,6 @@ example : SchemaOk [aR] := by
   intro i a h
   match i, h with
   | 0, h => simp at h; subst h; decide
-example : Dom [aR] init opsR := by
-  simp only [opsR, Dom, OpOk, and_true, true_and]
-  decide
 example : (run [aR] opsR).count = 3 ∧ sortReflexiveSt [aR] (run [aR] opsR) [2, 0, 1] "R1" "succeeds" = some [0, 1, 2] ∧
     sortReflexiveSt [aR] (run [aR] opsR) [2, 0, 1] "R1" "precedes" = some [2, 1, 0] := by decide
 
